@@ -48,18 +48,22 @@ func (c *Client) handleFlags() error {
 		return err
 	}
 
-	c.mutex.Lock()
-	if c.state == imap.ConnStateSelected {
-		c.mailbox = c.mailbox.copy()
-		c.mailbox.PermanentFlags = flags
-	}
-	c.mutex.Unlock()
-
 	cmd := findPendingCmdByType[*SelectCommand](c)
 	if cmd != nil {
+		// The flags belong to the mailbox being selected, not to the
+		// currently selected mailbox (if any)
 		cmd.data.Flags = flags
-	} else if handler := c.options.unilateralDataHandler().Mailbox; handler != nil {
-		handler(&UnilateralDataMailbox{Flags: flags})
+	} else {
+		c.mutex.Lock()
+		if c.state == imap.ConnStateSelected {
+			c.mailbox = c.mailbox.copy()
+			c.mailbox.Flags = flags
+		}
+		c.mutex.Unlock()
+
+		if handler := c.options.unilateralDataHandler().Mailbox; handler != nil {
+			handler(&UnilateralDataMailbox{Flags: flags})
+		}
 	}
 
 	return nil
